@@ -540,4 +540,76 @@ theorem routeFrom_none (rh : Bytes) (sites : List Bytes) (k : Nat) (hr : routeFr
       · subst h; simpa using ‹¬ equalFold rh t = true›
       · exact ih (k + 1) hr t h
 
+/-! ### brackets -/
+
+theorem lowerByte_eq_lbr (b : UInt8) (h : lowerByte b = cLbr) : b = cLbr := by
+  unfold lowerByte cLbr at *
+  split at h
+  · rename_i hc
+    obtain ⟨h1, h2⟩ := hc
+    have h1' := UInt8.le_iff_toNat_le.mp h1
+    have h2' := UInt8.le_iff_toNat_le.mp h2
+    have := congrArg UInt8.toNat h
+    simp [UInt8.toNat_add] at this h1' h2'
+    omega
+  · exact h
+
+theorem lowerByte_eq_rbr (b : UInt8) (h : lowerByte b = cRbr) : b = cRbr := by
+  unfold lowerByte cRbr at *
+  split at h
+  · rename_i hc
+    obtain ⟨h1, h2⟩ := hc
+    have h1' := UInt8.le_iff_toNat_le.mp h1
+    have h2' := UInt8.le_iff_toNat_le.mp h2
+    have := congrArg UInt8.toNat h
+    simp [UInt8.toNat_add] at this h1' h2'
+    omega
+  · exact h
+
+theorem trimPrefixByte_id (c : UInt8) (s : Bytes) (h : s.head? ≠ some c) : trimPrefixByte c s = s := by
+  cases s with
+  | nil => rfl
+  | cons x xs =>
+    have : ¬ x = c := fun e => h (by simp [e])
+    simp [trimPrefixByte, this]
+
+theorem trimSuffixByte_id (c : UInt8) (s : Bytes) (h : s.getLast? ≠ some c) : trimSuffixByte c s = s := by
+  simp [trimSuffixByte, h]
+
+/-- MatchHost's trimming changes the routing host only if SplitHostPort failed and the raw Host
+    begins with `[` or ends with `]` -/
+theorem bracketTrimmed_shape (host : Bytes) (h : bracketTrimmed host = true) :
+    enforcementHost host = host ∧ (cLbr ∈ host ∨ cRbr ∈ host) := by
+  unfold bracketTrimmed routingHost enforcementHost at h
+  cases hs : splitHostPort host with
+  | some r => rw [hs] at h; simp at h
+  | none =>
+    rw [hs] at h
+    refine ⟨by simp [enforcementHost, hs], ?_⟩
+    by_cases h1 : host.head? = some cLbr
+    · exact Or.inl (List.mem_of_mem_head? (by rw [h1]; exact rfl))
+    · by_cases h2 : host.getLast? = some cRbr
+      · exact Or.inr (List.mem_of_getLast? h2)
+      · rw [trimPrefixByte_id cLbr host h1, trimSuffixByte_id cRbr host h2] at h
+        simp at h
+
+theorem noBrackets_of_fold (sni host : Bytes) (e : lower sni = lower host)
+    (hb : cLbr ∈ host ∨ cRbr ∈ host) : noBrackets sni = false := by
+  have key : ∀ c : UInt8, (∀ b, lowerByte b = c → b = c) → lowerByte c = c → c ∈ host → c ∈ sni := by
+    intro c hc hcc hm
+    have : c ∈ lower sni := by
+      rw [e]; unfold lower; exact List.mem_map.mpr ⟨c, hm, hcc⟩
+    unfold lower at this
+    obtain ⟨b, hb1, hb2⟩ := List.mem_map.mp this
+    rw [hc b hb2] at hb1; exact hb1
+  cases hn : noBrackets sni with
+  | false => rfl
+  | true =>
+    exfalso
+    unfold noBrackets at hn
+    rw [List.all_eq_true] at hn
+    rcases hb with hb | hb
+    · have := hn _ (key cLbr lowerByte_eq_lbr (by decide) hb); simp at this
+    · have := hn _ (key cRbr lowerByte_eq_rbr (by decide) hb); simp at this
+
 end CaddyModel.C19
